@@ -220,7 +220,10 @@ def neutral_r(d):
     if k == "rawfixed":
         if d["size"] == 16 and d.get("conv") == ["UUID", [["bytes", ["X"]]]]:
             n = d.get("null")
-            return {"k": "uuid", "null": n["wire"] if n and n.get("then") == "none" else None}
+            out = {"k": "uuid", "null": n["wire"] if n and n.get("then") == "none" else None}
+            if n and n.get("also"):
+                out["null"] = "|".join([n["wire"]] + sorted(n["also"]))  # several wire values decode to None
+            return out
         return {"k": "rawfixed", "size": d["size"], "conv": timeflow.show(d.get("conv"))}
     if k == "marked":
         arms = d["arms"]
